@@ -121,7 +121,45 @@ var c17Markers = []string{"/gpkg-1\x00", "x/gpkg-1\x00", "Standard Jet DB", "Sta
 
 func c17Gen(t *rapid.T) c17Case {
 	var x []byte
-	switch rapid.IntRange(0, 8).Draw(t, "k") {
+	switch rapid.IntRange(0, 9).Draw(t, "k") {
+	case 9: // EBML header (Matroska / WebM) assembled from elements: Void padding of any size (it may hold
+		// stale bytes that look like a DocType element), the DocType before or after it
+		vint := func(n int) []byte {
+			if n < 127 && rapid.Bool().Draw(t, "shortvint") {
+				return []byte{0x80 | byte(n)}
+			}
+			if n < 16383 && rapid.Bool().Draw(t, "vint2") {
+				return []byte{0x40 | byte(n>>8), byte(n)}
+			}
+			return []byte{0x01, 0, 0, 0, 0, byte(n >> 16), byte(n >> 8), byte(n)}
+		}
+		doctype := func(name string) []byte { return append(append([]byte{0x42, 0x82}, vint(len(name))...), name...) }
+		var els [][]byte
+		for i, n := 0, rapid.IntRange(1, 6).Draw(t, "nels"); i < n; i++ {
+			switch rapid.IntRange(0, 4).Draw(t, "el") {
+			case 0:
+				els = append(els, []byte{0x42, 0x86, 0x81, 0x01}, []byte{0x42, 0xF7, 0x81, 0x01})
+			case 1:
+				els = append(els, []byte{0x42, 0xF2, 0x81, 0x04}, []byte{0x42, 0xF3, 0x81, 0x08}, []byte{0x42, 0x87, 0x81, 0x02})
+			case 2, 3:
+				sz := rapid.SampledFrom([]int{0, 10, 500, 1000, 2990, 3060, 4000, 4080, 5000}).Draw(t, "voidsize")
+				pay := make([]byte, sz)
+				if sz > 12 && rapid.Bool().Draw(t, "stale") {
+					copy(pay[rapid.IntRange(0, sz-12).Draw(t, "stalepos"):], doctype(rapid.SampledFrom([]string{"webm", "matroska"}).Draw(t, "staletype")))
+				}
+				els = append(els, append(append([]byte{0xEC}, vint(sz)...), pay...))
+			default:
+				els = append(els, doctype(rapid.SampledFrom([]string{"webm", "matroska", "xyz1", "", "webm\x00", "matroska-v5"}).Draw(t, "doctype")))
+			}
+		}
+		var body []byte
+		for _, e := range els {
+			body = append(body, e...)
+		}
+		x = append([]byte{0x1A, 0x45, 0xDF, 0xA3}, vint(len(body))...)
+		x = append(x, body...)
+		x = append(x, 0x18, 0x53, 0x80, 0x67, 0x01, 0xFF, 0xFF, 0xFF, 0xFF, 0xFF, 0xFF, 0xFF)
+		x = append(x, rapid.SliceOfN(rapid.Byte(), 0, 40).Draw(t, "segment")...)
 	case 0:
 		x = vfGenSeed(t)
 	case 1, 2:
@@ -205,8 +243,8 @@ func c17Gen(t *rapid.T) c17Case {
 		p := rapid.IntRange(0, min(len(a), 140)).Draw(t, "p")
 		x = append(a[:p:p], b...)
 	}
-	if len(x) > 5000 {
-		x = x[:5000]
+	if len(x) > 9000 {
+		x = x[:9000]
 	}
 	if rapid.IntRange(0, 199).Draw(t, "hugefile") == 0 {
 		// a real-size file: the same header followed by 70 KB - 1.2 MB of data
